@@ -27,6 +27,26 @@ def _soft(rep, msg):
     rep.note("LR/FW/RM (source-level layer rules) not applied: %s -- covered by T.L on the optimized IR" % msg)
 
 
+def _pending(rep, finding):
+    """a report of a supplementary source-level rule: it becomes a violation only if the IR-level rule T.L, which decides the same identities independently of the spelling,
+    fails as well (flush); otherwise it is a note -- the source-level normal forms do not follow re-assignments, helper functions, ..."""
+    if not hasattr(rep, "_layer_pending"):
+        rep._layer_pending = []
+    rep._layer_pending.append(finding)
+
+
+def flush(rep):
+    pend = getattr(rep, "_layer_pending", [])
+    rep._layer_pending = []
+    tl = [f for f in rep.violations if getattr(f, "rule", "") == "T.L"]
+    for f in pend:
+        if tl:
+            rep.violation(f)
+        else:
+            rep.note("%s (source-level layer rule) reports `%s` but T.L finds the layer identities intact on the optimized IR: not a finding (the source normal form does not "
+                     "follow this spelling)" % (getattr(f, "rule", "?"), getattr(f, "message", "")[:160]))
+
+
 def run_ir(rep, tier, order):
     """T.L: smooth::dX<G>(a) (free function through traits::lie<G>) == G::dX(a); dl_X(a) == +-dr_X(-a) at both layers; dr_rminus == dr_expinv and
     dr_rminus_squarednorm(e) == e^T dr_expinv(e) -- identical power series along rational rays (engine R), for every group of the catalogue"""
@@ -34,9 +54,11 @@ def run_ir(rep, tier, order):
     if order == 1:
         raychk.run(rep, tier, "C04", ["fw_drexp", "fw_drinv", "lr_drexp", "lr_drinv", "rm_dr", "rm_sq"], 1e-7, rule="T.L", minimum=60,
                    what="layer identities (free function == class function; dl_X(a) == dr_X(-a); dr_rminus == dr_expinv; dr_rminus_squarednorm == e^T dr_expinv) as power series")
+        flush(rep)
     else:
         raychk.run(rep, tier, "C05", ["fw_d2rexp", "fw_d2rinv", "lr_d2rexp", "lr_d2rinv"], 1e-5, rule="T.L", minimum=36,
                    what="layer identities (free function == class function; d2l_X(a) == -d2r_X(-a)) as power series")
+        flush(rep)
 
 
 def last(name):
@@ -143,7 +165,7 @@ def _run(rep, order):
         ok = got == want
         rep.instance("LR", where, "reflection", ok=ok, sample={"file": fe.rel(x.file), "line": x.line, "normal_form": "%+d * %s(%+d * a)" % got})
         if not ok:
-            rep.violation(Finding("LR", where, "reflection", "%s(a) evaluates %+d * %s(%+d * a); the left %s of exp at a is %+d * %s(-a)"
+            _pending(rep, Finding("LR", where, "reflection", "%s(a) evaluates %+d * %s(%+d * a); the left %s of exp at a is %+d * %s(-a)"
                                   % (nm, got[0], got[1], got[2], "Jacobian" if order == 1 else "Hessian", want[0], want[1]), x.file, x.line))
     for x in ridx:
         nm = x.qname.split("::")[-1]
@@ -170,7 +192,7 @@ def _run(rep, order):
             okc = len(crets) == 1 and crets[0][0] == "call" and last(crets[0][1]) == wantc
             rep.instance("FW", where, "commutative short-cut", ok=okc, sample={"file": base, "line": x.line})
             if not okc:
-                rep.violation(Finding("FW", where, "commutative short-cut", "for a commutative group %s returns %s instead of %s()"
+                _pending(rep, Finding("FW", where, "commutative short-cut", "for a commutative group %s returns %s instead of %s()"
                                       % (nm, A.show(crets[0])[:60] if crets else "nothing", wantc), x.file, x.line))
             calls = [A.to_expr(c) for c in A.walk_nolambda(gen) if c.get("kind") == "CallExpr"]
             calls = [c for c in calls if c[0] == "call" and str(c[1]).startswith("Impl::")]
@@ -189,7 +211,7 @@ def _run(rep, order):
                 why = "calls %s(%s * a, %s) and returns %s" % (c[1], ac, A.show(outref), A.show(grets[0]))
             rep.instance("FW", where, "Impl dispatch", ok=okg, sample={"file": base, "line": x.line})
             if not okg:
-                rep.violation(Finding("FW", where, "Impl dispatch", "%s %s; expected Impl::%s(a, ret); return ret" % (nm, why, nm), x.file, x.line))
+                _pending(rep, Finding("FW", where, "Impl dispatch", "%s %s; expected Impl::%s(a, ret); return ret" % (nm, why, nm), x.file, x.line))
             continue
         rets = returns(x.node)
         if len(rets) != 1:
@@ -203,7 +225,7 @@ def _run(rep, order):
         ok = got == (1, nm, 1)
         rep.instance("FW", where, "forward", ok=ok, sample={"file": base, "line": x.line, "normal_form": "%+d * %s(%+d * a)" % got})
         if not ok:
-            rep.violation(Finding("FW", where, "forward", "%s(a) forwards to %+d * %s(%+d * a) instead of %s(a)" % (nm, got[0], got[1], got[2], nm), x.file, x.line))
+            _pending(rep, Finding("FW", where, "forward", "%s(a) forwards to %+d * %s(%+d * a) instead of %s(a)" % (nm, got[0], got[1], got[2], nm), x.file, x.line))
 
 
 def run_rminus(rep):
@@ -255,6 +277,6 @@ def _run_rminus(rep):
             continue
         rep.instance("RM", nm, "definition", ok=ok, sample={"file": fe.rel(x.file), "line": x.line, "normal_form": shown})
         if not ok:
-            rep.violation(Finding("RM", nm, "definition", "%s(e) evaluates %s; the Jacobian of %s is %s" % (
+            _pending(rep, Finding("RM", nm, "definition", "%s(e) evaluates %s; the Jacobian of %s is %s" % (
                 nm, shown, "rminus in its first argument" if nm == "dr_rminus" else "half the squared norm of rminus",
                 "dr_expinv(e)" if nm == "dr_rminus" else "e^T dr_expinv(e)"), x.file, x.line))
